@@ -15,6 +15,9 @@ extern crate std;
 
 pub mod iterators;
 
+#[cfg(winterfell_verif)]
+pub mod verif;
+
 use alloc::vec::Vec;
 use core::{mem, slice};
 
